@@ -1,7 +1,7 @@
 #!/bin/sh
 # usage: seed_verify.sh <Cxx> <k>   - verifies a sub-agent's seeded defect in a scratch worktree and stores it under /verif/seeded/
 # Confirms: patch applies to /repo HEAD, test suite still "222 passed", demo fails with the patch and passes without.
-P=$1; K=$2; SRC=/tmp/wt/$P/SEED/$K; WT=/tmp/wt/verify-$P-$K
+P=$1; K=$2; SRC=${SEED_SRC:-/tmp/wt/$P}/SEED/$K; WT=/tmp/wt/verify-$P-$K
 [ -f $SRC/patch.diff ] || { echo "no patch $SRC"; exit 2; }
 git -C /repo worktree add -q --detach $WT HEAD || exit 2
 cd $WT
